@@ -186,6 +186,10 @@ func c37Create(s *orcStep, res *run.Result) {
 		res.Inc("skipped_board_emptied_and_printed_without_map")
 		return
 	}
+	if s.Pre.hasGlob() {
+		res.Inc("skipped_source_has_glob_keys")
+		return
+	}
 	if pre.underSpecial(k.Obj) || (k.Edge && (pre.underSpecial(k.Src) || pre.underSpecial(k.Dst))) {
 		// children of class / sql_table shapes are fields, not objects
 		res.Inc("skipped_create_inside_class_or_table")
@@ -273,6 +277,10 @@ func c37Set(s *orcStep, res *run.Result) {
 	}
 	if orcWentHollow(s) {
 		res.Inc("skipped_board_emptied_and_printed_without_map")
+		return
+	}
+	if s.Pre.hasGlob() {
+		res.Inc("skipped_source_has_glob_keys")
 		return
 	}
 	if pre.underSpecial(k.Obj) && !(len(k.Attr) > 0 && pre.findObj(k.Obj) >= 0 && !pre.underSpecial(k.Obj[:len(k.Obj)-1])) {
